@@ -275,6 +275,7 @@ class Body:
     name: str; nargs: int; ret: str
     local_ty: dict = field(default_factory=dict)
     debug: dict = field(default_factory=dict)
+    arg_names: dict = field(default_factory=dict)
     blocks: dict = field(default_factory=dict)   # n -> list of stmts (last = terminator)
 
 def _const_header(ln):
@@ -312,7 +313,10 @@ def _parse_body(name, header, lines):
         if mm: b.local_ty[int(mm.group(1))] = mm.group(2)
         mm = re.match(r'^debug (\w+) => (.*);$', s)
         if mm:
-            try: b.debug[mm.group(1)] = parse_place(mm.group(2))[0]
+            try:
+                pl_ = parse_place(mm.group(2))[0]
+                b.debug[mm.group(1)] = pl_
+                if isinstance(getattr(pl_, 'n', None), int) and 1 <= pl_.n <= b.nargs: b.arg_names.setdefault(mm.group(1), pl_.n)     # parameters (a later `let` may shadow the name)
             except Exception: pass
         mm = re.match(r'^bb(\d+)( \(cleanup\))?: \{$', s)
         if mm:
@@ -331,8 +335,8 @@ def _parse_body(name, header, lines):
 class Bodies:
     """name -> Body, parsed on first access."""
     def __init__(self, text):
-        self.raw = {}; self.cache = {}; self.simple = {}
-        lines = text.split('\n'); i = 0; n = len(lines)
+        self.raw = {}; self.cache = {}; self.simple = {}; self.ambiguous = set()
+        lines = text.split('\n'); i = 0; n = len(lines); ctfe = {}
         while i < n:
             ln = lines[i]
             if ln.startswith(('const ', 'static ')) and ln.endswith(';'):
@@ -346,14 +350,27 @@ class Bodies:
                     name = ch[0] if ch else None
                 j = i + 1
                 while j < n and lines[j] != '}': j += 1
-                if name is not None: self.raw[name] = (ln, lines[i + 1:j])
+                if name is not None and i > 0 and lines[i - 1].startswith('// MIR FOR CTFE'):
+                    ctfe.setdefault(name, (ln, lines[i + 1:j])); name = None          # the compile-time-evaluation copy of a const fn: the runtime body is the one that runs
+                if name is not None:
+                    if name in self.raw and self.raw[name][1] != lines[i + 1:j]:
+                        # two bodies printed under one name (macro-generated impl blocks share a source span; nested fns of the same name in two arms)
+                        mm = re.match(r'^(.*<impl at [^>]*)(>::.*)$', name)
+                        if mm:
+                            k = 2
+                            while f'{mm.group(1)}#{k}{mm.group(2)}' in self.raw: k += 1
+                            name = f'{mm.group(1)}#{k}{mm.group(2)}'
+                        else: self.ambiguous.add(name)
+                    self.raw[name] = (ln, lines[i + 1:j])
                 i = j
             i += 1
+        for k, v in ctfe.items(): self.raw.setdefault(k, v)
     def __contains__(self, k): return k in self.raw
     def __iter__(self): return iter(self.raw)
     def keys(self): return self.raw.keys()
     def __len__(self): return len(self.raw)
     def __getitem__(self, k):
+        if k in self.ambiguous: raise KeyError('ambiguous MIR body name (two different bodies printed under it): ' + k)
         if k not in self.cache:
             h, ls = self.raw[k]; self.cache[k] = _parse_body(k, h, ls)
         return self.cache[k]
